@@ -40,6 +40,9 @@ def model(case):
     for e in case["events"]:
         if e[0] not in first:
             first[e[0]] = e
+    # "" as parent id (what OTLP/JSON exporters write for a root) means no
+    # parent: stored as NULL, no link
+    first = {i: [e[0], e[1] or None] + list(e[2:]) for i, e in first.items()}
     nodes = {i: dict(event_id=e[0], parent_event_id=e[1], event_type=e[2],
                      job_id=e[3], job_name=e[4], start_timestamp=e[5],
                      end_timestamp=e[6], application_name=e[7])
@@ -268,7 +271,8 @@ def case_strategy():
         for k in range(n):
             sid = draw(st.sampled_from(ids))
             parent = draw(st.one_of(
-                st.none(), st.sampled_from(ids), st.just("ghost")))
+                st.none(), st.sampled_from(ids), st.just("ghost"),
+                st.just("")))
             if parent == sid:
                 parent = None
             start = draw(st.integers(0, 50))
